@@ -9,7 +9,7 @@ TB = ('Trusted: CBMC 6.11 (goto-cc C front end, goto-instrument --dfcc, SAT back
 
 CLAIMS = {
  'C01': dict(level='other', design='6 C01',
-   text='Contracts on the real bodies of Array::reserve, resize/clear, insert/operator<<, remove, copy constructor, destructor, operator=, free: abstract view (n, elements) via a ghost index, '
+   text='Contracts on the real bodies of Array::reserve, resize/clear, insert/operator<<, remove, copy constructor, destructor, operator=, free, append(const Array&) (also a.append(a)): abstract view (n, elements) via a ghost index, '
         'element life-cycle counters (constructed once, destroyed once), reference-count protocol, frames and frees. Block capacity (and requested size where it fixes an allocation size) is a constant per variant '
         '(3, 4, 6: crossing the growth steps); n, index, rc, contents and the aliasing choice (argument is an element of the same array) are symbolic. Every unit is therefore a bounded stand-in (bounded by capacity), not a proof for all capacities.',
    note=TB + 'Claimed at level other because every C01 unit is capacity-bounded. Histories: induction over the proved mutators (paper step). Not decided: sort, slice/concat/filter/map templates, String elements, Stack/Queue wrappers beyond resize/remove, all capacities at once. Known finding: growth while the block is shared.',
@@ -17,7 +17,7 @@ CLAIMS = {
  'C02': dict(level='other', design='6 C02',
    text='nextPoT proved for all n (bucket index always in range). Map::indexOf, set/operator(), remove, operator== verified as finite-map operations on every strictly sorted map of up to 8 int keys '
         '(sortedness is a quantified hypothesis: constant bound). HashMap::remove, operator[] on a bucket chain of up to 3 colliding nodes: exactly the addressed node is unlinked/appended, all other colliding entries stay reachable, node freed once, length +-1.',
-   note=TB + 'Level other: all functional units are bounded (<= 8 keys, chains <= 3). Not decided: rehash (table growth), HashMap/Set operator== (fixed natively, no CBMC unit), Set algebra, String keys, clone/merge. Histories by induction over the proved operations.',
+   note=TB + 'Level other: all functional units are bounded (<= 8 keys, chains <= 3). Rehash bucket placement is proved (HashMap_rehash_bin). Not decided: HashMap/Set operator== (fixed natively, no CBMC unit), Set algebra, String keys, clone/merge. Histories by induction over the proved operations.',
    technique='CBMC code contracts (DFCC) with constant-bound sortedness / chain shape'),
  'C20': dict(level='proof', design='6 C20',
    text='Algebraic clause only: the expression text of Matrix4/Matrix3 inverse() and det() is parsed on every run; A*adj = adj*A = d*I entrywise (so d != 0 implies M*inverse(M) = I), det() = Leibniz determinant = d, det(AB) = det(A)det(B); each is an SMT query that is unsat on z3 4.8, z3 5.1 and cvc5.',
@@ -25,11 +25,11 @@ CLAIMS = {
    technique='own VC generator over the extracted expression text + SMT (QF_NRA) on three solvers'),
  'C03': dict(level='proof', design='6 C03',
    text='Contracts (requires/ensures/assigns/frees) on the real bodies of String::resize, append, assign, concat, substring, substr, '
-        'operator+=(char), String(const char*,int), copy constructor, String(int), String(Long) (+ alloc/init/str/String(cap,n) inlined), '
+        'operator+=(char), String(const char*,int), copy constructor, String(int), String(Long), lastIndexOf, the retry loop of String::f over a C99 vsnprintf contract (+ alloc/init/str/String(cap,n) inlined), '
         'cut from /repo on every run and discharged by CBMC for all strings up to 100000 bytes: representation invariant (length = offset '
         'of NUL, capacity > length), byte-string model via a ghost index, frames, frees. Aliasing variants (source inside the string) are '
         'proved for the inline buffer and bounded by capacity for heap buffers.',
-   note=TB + 'Not decided: split/join/replace/trim as sequence functions, search (strstr/strchr are libc), printf-style formatting, float text, '
+   note=TB + 'Not decided: split/join/replace/trim as sequence functions, search other than lastIndexOf (strstr/strchr are libc contracts), what printf itself formats (only the buffer/length handling of String::f is decided; the String(int n, fmt, ...) constructor loop is not), float text, '
         'integer value round trip (SAT does not finish on divide/multiply chains; only canonical decimal form and capacity are proved), unsigned/ULong constructors (snprintf).',
    technique='CBMC code contracts (DFCC) on extracted function bodies, ghost-index postconditions'),
  'C04': dict(level='other', design='6 C04',
@@ -41,7 +41,7 @@ CLAIMS = {
  'C05': dict(level='proof', design='6 C05',
    text='Per-value lemmas between the extracted encoder and decoder code: for EVERY byte 1..255, inside a string value and inside a quoted object key, the characters XdlEncoder::new_string writes are legal strict-JSON string text (RFC 8259 char production) '
         'and the decoder steps turn them back into exactly that byte without leaving the string, rejecting or opening a comment; every JSON two-character escape decodes to its character; '
-        'new_number(int/double/float) reserve enough room for every text printf/myitoa can write and record the written length.',
+        'new_number(int/double/float) reserve enough room for every text printf/myitoa can write and record the written length; the BOM probe of Json::read / Xdl::read hands the decoder the whole file minus exactly a UTF-8 BOM, for every file size and first bytes.',
    note=TB + 'NOT decided: doubles/floats bit-exactness (a theorem about libc printf/atof), structure placement ([ ] { } , :) for whole trees, XDL identifier keys, file round trip, agreement with an independent parser beyond the string production. snprintf/strtoul are stubs with their ISO C contracts.',
    technique='CBMC full-domain lemmas over extracted encoder emit code + decoder step'),
  'C06': dict(level='proof', design='6 C06',
@@ -60,8 +60,8 @@ CLAIMS = {
    text='For EVERY Unicode scalar value at once (one symbolic code point): utf32toUtf8 emits exactly the bytes of Unicode table 3-6, utf8toUtf32 returns it, '
         'utf8toUtf16 gives table 3-5, utf16toUtf8 returns the same bytes, code-point iteration yields the value and its length, count() of two values is 2. '
         'For ANY NUL-terminated bytes / 0-terminated code arrays of symbolic length (loop contracts): the four converters, count() and the iteration step stay '
-        'inside input and inside the output capacity their call sites give, and terminate.',
-   note=TB + 'Not decided: whole-sequence equality (k-th output = decoding of k-th sequence), chars()/fromCodes wrappers (Array), case mapping tables and equalsNocase (in progress), local-charset conversions.',
+        'inside input and inside the output capacity their call sites give, and terminate. Case: one step of toUpperCase/toLowerCase for every code point stays inside the capacity, the per-pair rule of equalsNocase does not depend on byte length; the whole equalsNocase on strings of up to 2 code points per side (bounded).',
+   note=TB + 'Not decided: whole-sequence equality (k-th output = decoding of k-th sequence), chars()/fromCodes wrappers (Array), the case mapping tables against the Unicode database, local-charset conversions.',
    technique='CBMC: full-domain harness over all scalar values + code contracts with loop contracts for arbitrary bytes'),
  'C16': dict(level='proof', design='6 C16',
    text='Per scalar type (u16,i16,i32,u32,f32,i64,u64,f64 as bit patterns) and byte order (BIG, LITTLE, NATIVE): swapBytes, StreamBufferReader::read2/4/8, '
@@ -77,13 +77,13 @@ CLAIMS = {
  'C19': dict(level='proof', design='6 C19',
    text='For EVERY day of years 0001..9999 (one symbolic day number): yearFromTime returns the Gregorian year containing it, the month search and weekday formula of calc() give the unique '
         'year/month/day/weekday, construct() of valid fields is 86400 s times the day number they denote (so fields -> instant -> fields is the identity at day granularity), the floating '
-        'macro timeFromYearAsDays equals the integer day count. ISO parser: every read inside the text for ANY string, fraction loop terminates, numeric zone offsets shift the instant by the stated offset.',
-   note=TB + 'Not decided: hour/minute/second extraction in calc() (floating fract), the floating entry floor(t/86400) of yearFromTime, formatting (printf), the HTTP-date branch (split/Map), local time, the custom-format constructor.',
+        'macro timeFromYearAsDays equals the integer day count. The weekday statements at the end of calc() in floating point exactly as written (bias, t/86400, floor, % 7 fix-up) for every integer second: days -400..400 in the quick tier (bounded), every day of years 0001..9999 in the thorough tier. ISO parser: every read inside the text for ANY string, fraction loop terminates, numeric zone offsets shift the instant by the stated offset.',
+   note=TB + 'Not decided: hour/minute/second extraction in calc() (floating fract), the floating entry floor(t/86400) of yearFromTime except for 1969..1971 (thorough, bounded), formatting (printf), the HTTP-date branch (split/Map), local time, the custom-format constructor.',
    technique='CBMC code contracts (DFCC) over a symbolic day number; loop contract for the parser'),
  'C09': dict(level='proof', design='6 C09',
    text='For ANY request target / URL text / header value (symbolic lengths and positions): every substring() and operator[] argument in the fragment/query/path split of HttpRequest::read and in Url::Url is in range; Url::decode stays inside the text and terminates; '
-        'the ".." filter tests and cleans the DECODED path, also when percent-decoding yields NUL bytes; the Range header parts are only indexed below their count; each turn of the readBody read loop reads 1..sizeof(buffer) bytes and either delivers data or returns.',
-   note=TB + 'String/Array/Socket callees are contract stubs: substring precondition (C03), indexOf = first occurrence or -1, contains/replace on the C string (assumed), Socket::read = 1..n bytes or 0/negative after close. NOT decided: header parsing (readHeaders/readLine: Dic and String loops), delivered method/headers/body equal to what was sent, file mapping, keep-alive dispatch loop.',
+        'the ".." filter tests and cleans the DECODED path, also when percent-decoding yields NUL bytes; the Range header parts are only indexed below their count; each turn of the readBody read loop reads 1..sizeof(buffer) bytes and either delivers data or returns, and the outer loop ends when the peer closes mid-body; one turn of the header loop ends at the empty line AND at end of stream; parseQuery splits on & and = before it percent-decodes.',
+   note=TB + 'String/Array/Socket callees are contract stubs: substring precondition (C03), indexOf = first occurrence or -1, contains/replace on the C string (assumed), Socket::read = 1..n bytes or 0/negative after close. NOT decided: Socket::readLine, header name/value storage (Dic), delivered method/headers/body equal to what was sent, file mapping, keep-alive dispatch loop.',
    technique='CBMC code contracts on extracted code regions with callee contracts as stubs'),
  'C10': dict(level='proof', design='6 C10',
    text='Framing arithmetic only: Socket_::read / Socket_::write (blocking) hand the caller\'s buffer to the OS consecutively, each byte exactly once, never beyond its end, and terminate; '
@@ -92,13 +92,16 @@ CLAIMS = {
    technique='CBMC code contracts with loop contracts on extracted bodies, OS calls as contract stubs'),
  'C11': dict(level='proof', design='6 C11',
    text='WebSocket::send frame header proved against an RFC 6455 5.2 specification for EVERY payload length 1..2^31-1, frame type and masking key (7/16/64-bit length forms at exactly 125/126 and 65535/65536, network order). '
-        'WebSocket::receive header decoding for ANY bytes from the peer never sizes the buffer with a negative length. Word-wise masking loop = per-octet RFC masking (bounded to 13-byte payloads).',
-   note=TB + 'StreamBuffer and socket operations are ghost wire stubs whose byte order behaviour is the contract proved in C16. Not decided: ordering across messages / ping interleaving over real sockets (schedules), fragment accumulation across frames (Array append of message parts), handshake key (SHA-1 + Base64 composition: C15), unmask loop of receive (same text shape as send).',
+        'WebSocket::receive header decoding for ANY bytes from the peer never sizes the buffer with a negative length. One iteration of the receive frame loop for ANY frame bytes: a data frame adds exactly its payload once, control frames add nothing. Word-wise masking loop = per-octet RFC masking (bounded to 13-byte payloads). Handshake ingredients: encodeBase64 and the SHA-1 units of C15 are re-run here.',
+   note=TB + 'StreamBuffer and socket operations are ghost wire stubs whose byte order behaviour is the contract proved in C16. Not decided: ordering across messages / ping interleaving over real sockets (schedules), the handshake exchange itself (header text), unmask loop of receive (same text shape as send).',
    technique='CBMC code contracts on extracted code regions with ghost wire stubs'),
  'C15': dict(level='proof', design='6 C15',
-   text='encodeBase64 proved against an RFC 4648 specification macro for every input up to 4096 bytes (10^6 in the thorough tier) with a loop contract; '
-        'more units are added as they are built.',
-   note=TB + 'Not decided yet: decoders, hex, percent-encoding, SHA-1 (in progress).',
+   text='encodeBase64 proved against an RFC 4648 specification macro for every input up to 4096 bytes (10^6 in the thorough tier) with a loop contract. decodeBase64: every RFC group of all 2^24 byte triples (both padding forms) decodes to its bytes; '
+        'one loop step for ANY character and loop state (space/tab/LF/CR skipped, alphabet characters add their value in order, progress); result length >= 0 for any padding count. decodeHex for text of any length (odd too) stays inside its result. '
+        'Url::decode(Url::encode(c)) = c for every byte in both modes (whole bodies on a one-character string); parseQuery splits before it decodes. SHA-1: round macros = FIPS 180-4 f_t/K_t/schedule/big-endian load for all t and all states; '
+        'SHA1::update cuts any message into the right 64-byte blocks (buffer offsets 0, 3, 56, 63: bounded variants); the 80-step composition of transform() is a syntactic pattern check, not solver-discharged.',
+   note=TB + 'NOT decided: decodeBase64 as one loop-contract unit (registered units cover its group decoding, loop step and tail separately; the whole-function unit does not finish), encodeHex text (snprintf), '
+        'Url::params/parseQuery as Dic-level inverses, SHA1::finish padding, sampled large sizes.',
    technique='CBMC code contracts (DFCC) with loop contracts on extracted function bodies'),
 }
 NA = {
